@@ -235,8 +235,11 @@ def check_hierarchy(chk, key, est, replay):
             chk.fail(key + ":hierarchy-bound", f"group {g}: max |W1|={mu} exceeds M*||W_skip||={M * nv}", dict(replay, group=g), layer="L3")
 
 
-def check_groups_whole(chk, key, est, replay):
-    """every declared group is selected as a whole or discarded as a whole; returns True when some group of >= 2 features exists."""
+def check_groups_whole(chk, key, est, replay, X=None):
+    """every declared group is selected as a whole or discarded as a whole; returns True when some group of >= 2 features exists.
+    A split whose discarded members are all all-zero columns of the training data is the known guarded-out case of
+    C06_group_whole (their rows have gradient exactly 0 and never regrow after the group was zeroed): stable key
+    fit:group-split:zero-column.  Any other split is reported under <key>:group-split."""
     if est.groups_ is None:
         return False
     sel = set(int(j) for j in est.get_selection())
@@ -247,7 +250,12 @@ def check_groups_whole(chk, key, est, replay):
             multi = True
         ins = [j in sel for j in g]
         if any(ins) and not all(ins):
-            chk.fail(key + ":group-split", f"group {g} is split: selected {[j for j in g if j in sel]}", dict(replay, group=g), layer="L3")
+            dropped = [j for j in g if j not in sel]
+            if X is not None and all(not np.any(X[:, j]) for j in dropped):
+                chk.fail("fit:group-split:zero-column", f"group {g} is split: selected {[j for j in g if j in sel]}, discarded {dropped} (all-zero columns of X)",
+                         dict(replay, group=g), layer="L3")
+            else:
+                chk.fail(key + ":group-split", f"group {g} is split: selected {[j for j in g if j in sel]}", dict(replay, group=g), layer="L3")
     return multi
 
 
@@ -307,7 +315,7 @@ def state_checks(chk, key, est, X, case, rng, replay, inert=True):
     """all the checks that apply to any state of a fit / path history after at least one update."""
     sel, ok = check_selection(chk, key, est, replay)
     check_hierarchy(chk, key, est, replay)
-    multi = check_groups_whole(chk, key, est, replay)
+    multi = check_groups_whole(chk, key, est, replay, X)
     nun, moved = (0, 0)
     if inert:
         nun, moved = check_inert(chk, key, est, X, rng, replay)
@@ -425,7 +433,7 @@ def stream_update(chk, i, rng):
     # ---- L3: hierarchy and wholeness after the update (rows handed over were non-zero unless the edge says otherwise)
     check_hierarchy(chk, "update", est, replay)
     if edge is None:
-        check_groups_whole(chk, "update", est, replay)
+        check_groups_whole(chk, "update", est, replay, X)
     nun, _ = check_inert(chk, "update", est, X, rng, replay)
     if edge == "zero-row" and replay["edge"][1] in sel:
         chk.fail("update:zero-row-revived", "a row that was exactly zero before the proximal step is non-zero after it", replay, layer="L3")
@@ -598,8 +606,46 @@ def stream_groups(chk, i, rng):
     chk.count(("groups", d, tuple(tuple(g) for g in gs)) if (valid and len(flat) < d) or not valid else None)
 
 
-STREAMS = {"groups": (stream_groups, 400, 4000), "update": (stream_update, 420, 6000),
-           "fit": (stream_fit, 330, 5000), "path": (stream_path, 36, 500)}
+# ------------------------------------------------------------------ stream 5: an all-zero column inside a declared group
+def load_corpus():
+    import os, json, glob
+    return [json.load(open(f)) for f in sorted(glob.glob(os.path.join(os.path.dirname(os.path.dirname(os.path.abspath(__file__))), "corpus", "C06", "*.json")))]
+
+
+def stream_zerocol(chk, i, rng):
+    """Training data with an all-zero column (an unused one-hot level) inside a declared group: the guarded-out case of
+    C06_group_whole.  Everything else (selection, inertness, hierarchy, groups_) must hold as usual; a split of that group
+    is the known finding, any other split is not."""
+    corpus = load_corpus()
+    if i < len(corpus):
+        c = corpus[i]
+        X = np.array(c["X"], dtype=float)
+        name, kw = c["estimator"], dict(c["params"])
+        case = {"estimator": name, "d": X.shape[1], "groups": kw["groups"], "corpus": True}
+    else:
+        n, d, K = 30, int(rng.integers(3, 6)), 3
+        cen = rng.normal(size=(K, d)) * 3
+        X = cen[rng.integers(0, K, size=n)] + rng.normal(size=(n, d))
+        X[:, 0] = 0.0
+        mate = list(range(1, int(rng.integers(2, 4))))
+        name = ["SparseLinearMI", "SparseLinearMMD", "SparseLinearModel", "SparseMLPMMD", "SparseMLPModel"][int(rng.integers(0, 5))]
+        kw = dict(n_clusters=K, groups=[[0] + mate], alpha=float(rng.choice([1.0, 2.0, 5.0])), max_iter=int(rng.choice([40, 60])),
+                  learning_rate=1e-2, solver=str(rng.choice(["sgd", "sgd", "adam"])), random_state=int(rng.integers(0, 100)),
+                  n_hidden_dim=4, M=float(rng.choice([0.3, 2.0])))
+        case = {"estimator": name, "d": d, "groups": kw["groups"], "corpus": False}
+    est = impl.make(name, **kw)
+    est.fit(X)
+    replay = dict(case, params={k: v for k, v in kw.items()}, X=X.tolist())
+    nfail = len(chk.failures)
+    check_groups_attr(chk, "zerocol", est, case, replay)
+    sel, nun, moved, multi = state_checks(chk, "zerocol", est, X, case, rng, replay)
+    split = any(f.key == "fit:group-split:zero-column" for f in chk.failures[nfail:])
+    chk.dist["zerocol:" + ("group split" if split else "group whole")] += 1
+    chk.count(("zerocol", name, kw["alpha"], kw["solver"], tuple(sel)) if nun > 0 else None)
+
+
+STREAMS = {"zerocol": (stream_zerocol, 100, 1500), "groups": (stream_groups, 600, 6000), "update": (stream_update, 900, 12000),
+           "fit": (stream_fit, 660, 9000), "path": (stream_path, 80, 1000)}
 
 
 def main():
@@ -617,7 +663,9 @@ def main():
             cnt = q if chk.tier == "quick" else th
             if chk.l1_broken:
                 cnt *= 3
+            t0 = __import__("time").time()
             chk.run_stream(name, fn, cnt)
+            chk.dist[f"wall_s:{name}"] = round(__import__("time").time() - t0, 1)
     unsel = sum(v for k, v in chk.dist.items() if k in ("fit:unselected=some", "fit:unselected=all"))
     chk.notes.append(f"fits with at least one unselected feature: {unsel}; path snapshots with unselected features: {chk.dist.get('path:snapshots-with-unselected', 0)} of {chk.dist.get('path:snapshots', 0)}")
     chk.notes.append("proximal operators are oracles here (library functions of gemclus.sparse._prox_grad, C05's subject); the theorems take "
